@@ -2,6 +2,7 @@
 import itertools
 
 import numpy as np
+import traceback
 import torch
 
 import cirkit.symbolic.functional as SF
@@ -93,12 +94,12 @@ def one_case(rep, cs, seed, i, replaying=False):
         rep.count("kind:" + kd)
     ci = SF.integrate(sc, Scope(Z))
     rest = [v for v in scope if v not in Z]
-    ys = gen.sample_inputs(rng, g.doms, rest, 3)
+    ys = gen.sample_inputs(rng, g.doms, rest, 3, nonneg=(sem == 'lse-sum'))
     # ---- oracle on the implementation ----
     try:
         ok, detail = oracle(sc, ci, Z, g.doms, ys, sem, fold, opt)
     except Exception as e:  # an exception where a value is promised
-        ok, detail = False, {"exception": repr(e)}
+        ok, detail = False, {"exception": repr(e)[:300], "traceback": traceback.format_exc()[-1500:]}
     sig = "integrate-wrong-value"
     if isinstance(detail, dict) and "exception" in detail:
         sig = "integrate-compile-exception:" + detail["exception"].split("(")[0]
